@@ -76,8 +76,11 @@ struct WkdRun {
     }
     void check_canary(const KeyM& k, const char* what) {
         size_t fs = R.sz(JV_SZ_WK_FREESLOT);
-        for (size_t i = k.cap * fs; i < k.cap_alloc * fs; i++) if (k.barr.p[i] != 0xEE)
-            env.fail("C17", "slot-array-overrun", strf("%s wrote free-slot entry %zu but the Go wrapper allocates only %zu entries (l - len(attrs))", what, i / fs, k.cap));
+        // (C12's check goes on with such a key - the harness allocates spare entries behind the caller's array in the plain flavour - so that
+        // its own oracles judge what the surplus entries let their holder do; the overrun itself is C17's and C11's finding)
+        for (size_t i = k.cap * fs; i < k.cap_alloc * fs; i++) if (k.barr.p[i] != 0xEE) {
+            if (env.focus == "C12") { env.count("other_property_violation:C17:slot-array-overrun"); return; }
+            env.fail("C17", "slot-array-overrun", strf("%s wrote free-slot entry %zu but the Go wrapper allocates only %zu entries (l - len(attrs))", what, i / fs, k.cap)); }
     }
 
     // ------------------------------------------------------------ directives -> attribute list + child pattern
@@ -157,6 +160,7 @@ struct WkdRun {
         ExpKey e = expected_key(k.pat, k.rho);
         std::string pats = pat_str(k.pat);
         if (env.focus == "C12" && (size_t) l <= k.cap) demonstrate_fillable_hidden_slot(k, what);
+        if ((size_t) l != e.b.size() && env.focus == "C12" && (size_t) l <= k.cap_alloc) { env.count(std::string("other_property_violation:") + prop + ":key:free-slot-count"); return; }
         if ((size_t) l != e.b.size()) env.fail(prop, "key:free-slot-count", strf("%s: key for pattern %s lists %d free slots, model says %zu", what.c_str(), pats.c_str(), l, e.b.size()));
         if ((size_t) l > k.cap) env.fail("C17", "slot-array-overrun", strf("%s wrote %d free-slot entries, the Go wrapper allocates %zu", what.c_str(), l, k.cap));
         for (int i = 0; i < l; i++) {
@@ -577,12 +581,16 @@ struct WkdRun {
         KeyM* pk = pick_key(op.arg(1)); if (!pk || pk->tainted || pk->rho.is_zero()) return;
         size_t pi = (size_t) (pk - &keys[0]);
         int hidden = -1; size_t skip = (size_t) op.arg(4);
-        std::vector<int> hs; for (int i = 0; i < sys.l; i++) if (pk->pat[(size_t) i].st == ST_HIDDEN) hs.push_back(i);
-        if (hs.empty()) return; hidden = hs[skip % hs.size()];
+        // target: a hidden slot (to be given a value) or a fixed slot (to be given ANOTHER value) - neither has a delegation element in the key
+        std::vector<int> hs; for (int i = 0; i < sys.l; i++) if (pk->pat[(size_t) i].st == ST_HIDDEN || pk->pat[(size_t) i].st == ST_FIXED) hs.push_back(i);
+        if (hs.empty()) return; hidden = hs[skip % hs.size()]; bool refix = pk->pat[(size_t) hidden].st == ST_FIXED;
         Bn v = value_of_code(value_codes()[(size_t) op.arg(3) % value_codes().size()]); if (Bn::mod(v, K().r).is_zero()) v = Bn(6);
+        if (refix && Bn::mod(v, K().r) == Bn::mod(pk->pat[(size_t) hidden].v, K().r)) v = Bn::mod(Bn::add(v, Bn(1)), K().r);
+        if (refix && Bn::mod(v, K().r) == Bn::mod(pk->pat[(size_t) hidden].v, K().r)) return;
         int how = (int) op.arg(2) % 4;
-        // attack list: every fixed slot repeated, the hidden slot given a value
-        std::vector<MAttr> L = list_of_pattern(pk->pat); L.push_back({(uint32_t) hidden, v, false});
+        // attack list: every fixed slot repeated, the target slot given the (new) value
+        std::vector<MAttr> L = list_of_pattern(pk->pat);
+        if (refix) { for (auto& a : L) if ((int) a.idx == hidden) a.id = v; env.count("fault:attack_refix_fixed_slot"); } else L.push_back({(uint32_t) hidden, v, false});
         std::sort(L.begin(), L.end(), [](const MAttr& a, const MAttr& b) { return a.idx < b.idx; });
         JAttrs ja(L, false);
         KeyM k = newkey((size_t) sys.l + 1); k.tainted = true; k.pat = pk->pat; k.rho = pk->rho;
@@ -609,7 +617,7 @@ struct WkdRun {
         env.lib_calls++; R.jv_wk_decrypt(view, out.b, ct, k.sk);
         env.count(std::string("fault:attack_fill_hidden_via_") + hn);
         env.logf("ATTACK %s slot %d opens=%d", hn, hidden, w.ct(out) == w.ct(m));
-        if (w.ct(out) == w.ct(m)) env.fail("C12", "hidden-slot-cannot-be-filled", strf("%s applied to a key with pattern %s and list %s produced a key that decrypts a ciphertext in which hidden slot %d is set", hn, pat_str(keys[pi].pat).c_str(), list_str(L).c_str(), hidden));
+        if (w.ct(out) == w.ct(m)) env.fail("C12", "hidden-slot-cannot-be-filled", strf("%s applied to a key with pattern %s and list %s produced a key that decrypts a ciphertext in which %s slot %d is set%s", hn, pat_str(keys[pi].pat).c_str(), list_str(L).c_str(), refix ? "fixed" : "hidden", hidden, refix ? " to another value" : ""));
         env.add_case(strf("attack %s %s slot%d", hn, pat_str(keys[pi].pat).c_str(), hidden), true);
     }
 
